@@ -158,6 +158,36 @@ Check C08_emfile : forall v fail_at openable pl sh k,
   let r := run_pipeline v fail_at openable pl sh in
   res_error r = true /\ res_kids r = [] /\ teq_tab (res_shell r) (tab sh).
 
+(* descriptor exhaustion at the capture pipes: whichever of the two pipe() calls fails -- for the second
+   the already created stdout capture pipe is closed again (core.rs: if let Some(fds) = fds_capture_stdout) --
+   the result is an error, nothing is forked, the stage pipes and the first capture pipe are released *)
+Theorem C08_emfile_capture : forall fail_at openable pl sh,
+  is_single_builtin pl = false -> capture_fails fail_at pl = true ->
+  let r := run_pipeline v0 fail_at openable pl sh in
+  res_error r = true /\ res_kids r = [] /\ teq_tab (res_shell r) (tab sh).
+Proof.
+  intros fail_at openable pl sh NB CF. cbv zeta.
+  destruct (capture_fail_error v0 fail_at openable pl sh CF) as (A & B).
+  split; [exact A|]. split; [exact B|]. apply (proj1 (C08_shell fail_at openable pl sh NB)).
+Qed.
+Check C08_emfile_capture : forall fail_at openable pl sh,
+  is_single_builtin pl = false -> capture_fails fail_at pl = true ->
+  let r := run_pipeline v0 fail_at openable pl sh in
+  res_error r = true /\ res_kids r = [] /\ teq_tab (res_shell r) (tab sh).
+
+(* the failure point BETWEEN the two capture pipes, selected by fail_at: pipe() call number n (0-based: n-1
+   stage pipes, then capture stdout = call n-1, capture stderr = call n).  One and two stages; the trace shows
+   the first capture pipe (3,4 resp. 5,6) being created and closed again, then the stage pipe released. *)
+Example C08_capture_second_pipe_fails :
+  let r1 := run_pipeline v0 (fun k => Nat.eqb k 1) yes (mkplan [ext] true) sh0 in
+  let r2 := run_pipeline v0 (fun k => Nat.eqb k 2) yes (mkplan [ext; ext] true) sh0 in
+  capture_fails (fun k => Nat.eqb k 1) (mkplan [ext] true) = true /\
+  res_error r1 = true /\ res_kids r1 = [] /\ map (obj_at (tab (res_shell r1))) [3; 4; 5; 6] = [None; None; None; None] /\
+  rev (tr (res_shell r1)) = [EPipe 3 4; EPipeFail; EClose 3 true; EClose 4 true] /\
+  res_error r2 = true /\ res_kids r2 = [] /\ map (obj_at (tab (res_shell r2))) [3; 4; 5; 6; 7; 8] = [None; None; None; None; None; None] /\
+  rev (tr (res_shell r2)) = [EPipe 3 4; EPipe 5 6; EPipeFail; EClose 5 true; EClose 6 true; EClose 3 true; EClose 4 true].
+Proof. vm_compute. repeat split; reflexivity. Qed.
+
 (* the full statement outside the one remaining class *)
 Theorem C08_partial : forall fail_at openable pl sh i0 o0 e0,
   std_ok (tab sh) i0 o0 e0 -> Known_C08 pl = false -> run_clean v0 fail_at openable pl sh.
@@ -237,4 +267,5 @@ Print Assumptions C08_children.
 Print Assumptions C08_builtin.
 Print Assumptions C08_partial.
 Print Assumptions C08_emfile.
+Print Assumptions C08_emfile_capture.
 Print Assumptions C08_refuted.
